@@ -75,7 +75,7 @@ def gen_case(rng: random.Random, thorough=False, cli=False):
             # per-batch combination cap: mostly not binding; small caps make different pairs be scored in different batches, so a
             # pair can appear for the first time in a LATER batch (checkpoints / medians must still cover every batch so far)
             'cap': rng.choice([2048, 2048, 2048, 1, 2, 3]) if not cli else 2048,
-            'ctrl': rng.random() < 0.3}
+            'ctrl': rng.random() < 0.3, 'coldesc': 'tuple' if (rng.random() < 0.25 and not cli) else 'list'}
 
 
 def build(case):
@@ -170,7 +170,7 @@ def nfields(s):
 
 
 def argkw(case):
-    return dict(minibatch_size=case['B'], subsampling=case['sub'], heuristic=case.get('heuristic', 'MI-numba-randomized'),
+    return dict(_coldesc=case.get('coldesc', 'list'), minibatch_size=case['B'], subsampling=case['sub'], heuristic=case.get('heuristic', 'MI-numba-randomized'),
                 target_ranking_only='True' if case.get('target_only', True) else 'False',
                 include_cardinality_in_feature_names='True' if case.get('card_names') else 'False',
                 combination_number_upper_bound=case.get('cap', 2048))
